@@ -28,7 +28,7 @@ import (
 	rconfig "github.com/dadrus/heimdall/internal/rules/config"
 	"github.com/dadrus/heimdall/internal/rules/rule"
 	"github.com/dadrus/heimdall/internal/verif/vkit/core"
-	"github.com/dadrus/heimdall/internal/x/testsupport"
+	"github.com/dadrus/heimdall/internal/verif/vkit/ports"
 )
 
 type vf12Case struct {
@@ -89,12 +89,12 @@ func TestC12(t *testing.T) {
 			}(c)
 		}
 	}()
-	deadPort, _ := testsupport.GetFreePort()
+	deadPort, _ := ports.Free()
 	upstream := ln.Addr().String()
 
 	for _, override := range []int{0, 503, 599} {
-		port, _ := testsupport.GetFreePort()
-		mport, _ := testsupport.GetFreePort()
+		port, _ := ports.Free()
+		mport, _ := ports.Free()
 		cfgPath := filepath.Join(dir, fmt.Sprintf("heimdall-%d.yaml", override))
 		cfg := fmt.Sprintf(`
 serve:
